@@ -13,6 +13,7 @@ import (
 	"strconv"
 	"strings"
 	"testing"
+	"time"
 
 	"google.golang.org/grpc"
 	"google.golang.org/grpc/codes"
@@ -72,6 +73,50 @@ type c14Case struct {
 	Details []string `json:",omitempty"` // X-GRPC-Details header values
 	CT      string   `json:",omitempty"`
 	Raw     []byte   `json:",omitempty"` // reply body
+	// sequence mode: the codes of calls made one after the other on one channel whose transport allows MaxConns
+	// connections per host (0 = no limit), under one long-lived caller context
+	Seq      []uint32 `json:",omitempty"`
+	MaxConns int      `json:",omitempty"`
+}
+
+// c14Sequence: every call of a sequence recovers its own code - also when connections are a scarce resource.
+func c14Sequence(c c14Case, o *Outcome) *Outcome {
+	o.NonTrivial = true
+	o.class("sequence/calls=%d/max-conns=%d/renderer=%s", len(c.Seq), c.MaxConns, c.Renderer)
+	svc := &Service{Unary: func(ctx context.Context, req *pb.Message) (*pb.Message, error) {
+		code := uint32(req.Count)
+		if code == 0 {
+			return &pb.Message{Count: 7}, nil
+		}
+		return nil, status.Error(codes.Code(code), "failed")
+	}}
+	name := cHTTP
+	if c.Carrier == "mux" {
+		name = cHTTPMux
+	}
+	car := newCarrier(name, newServiceDesc(), svc, carrierOpts{HOpts: c14Renderer(c.Renderer)})
+	defer car.Close()
+	car.Transport.MaxConnsPerHost = c.MaxConns
+	ctx, cancel := context.WithCancel(context.Background())
+	defer cancel()
+	var got []string
+	for i, code := range c.Seq {
+		var err error
+		out := new(pb.Message)
+		if stall := guardFor(5*time.Second, "call", func() { err = car.Conn.Invoke(ctx, mUnary, &pb.Message{Count: int32(code)}, out) }); stall != "" {
+			o.Observed = got
+			return o.failf("sequence %v on one channel (at most %d connections per host, renderer %s): call %d (code %d) did not return within 5s", c.Seq, c.MaxConns, c.Renderer, i+1, code)
+		}
+		got = append(got, fmt.Sprint(uint32(status.Code(err))))
+		o.Observed = got
+		if _, ok := status.FromError(err); !ok {
+			return o.failf("sequence %v: call %d: not a status error: %v", c.Seq, i+1, err)
+		}
+		if uint32(status.Code(err)) != code {
+			return o.failf("sequence %v on one channel (at most %d connections per host, renderer %s): call %d: handler returned code %d, caller recovered %v", c.Seq, c.MaxConns, c.Renderer, i+1, code, err)
+		}
+	}
+	return o
 }
 
 func c14Renderer(name string) []httpgrpc.HandlerOption {
@@ -95,6 +140,8 @@ func propC14(c c14Case) *Outcome {
 		return c14Forward(c, o)
 	case "reply":
 		return c14Reply(c, o)
+	case "sequence":
+		return c14Sequence(c, o)
 	}
 	return c14Fallback(c, o)
 }
@@ -307,7 +354,8 @@ func c14HeaderCode(v string) (code uint32, msg string, hasMsg, ok bool) {
 		num, msg, hasMsg = v[:i], v[i+1:], true
 	}
 	digits := num
-	if strings.HasPrefix(digits, "-") {
+	if strings.HasPrefix(digits, "-") || strings.HasPrefix(digits, "+") {
+		// (a sign, either one: the header's grammar is whatever strconv.ParseInt takes; "+0" is the code 0)
 		digits = digits[1:]
 	}
 	if digits == "" {
@@ -486,6 +534,10 @@ func genC14(t *rapid.T) c14Case {
 	if rapid.IntRange(0, 3).Draw(t, "replymode") == 0 {
 		return genC14Reply(t)
 	}
+	if rapid.IntRange(0, 29).Draw(t, "sequence") == 0 {
+		return c14Case{Mode: "sequence", Seq: rapid.SliceOfN(rapid.Uint32Range(0, 16), 2, 6).Draw(t, "seq"), MaxConns: rapid.SampledFrom([]int{0, 1, 1, 2}).Draw(t, "maxconns"),
+			Renderer: rapid.SampledFrom([]string{"default", "default", "teapot"}).Draw(t, "seqrenderer"), Carrier: rapid.SampledFrom([]string{"server", "mux"}).Draw(t, "seqcarrier")}
+	}
 	if rapid.IntRange(0, 3).Draw(t, "mode") == 0 {
 		return c14Case{Mode: "fallback", HTTP: rapid.IntRange(100, 599).Draw(t, "http"), Stream: rapid.Bool().Draw(t, "stream"),
 			Body: rapid.SampledFrom([]string{"empty", "text"}).Draw(t, "body")}
@@ -520,6 +572,7 @@ func FuzzUnaryReply(f *testing.F) {
 	f.Add(uint16(200), false, "", "", "text/plain", []byte("OK\n"))
 	f.Add(uint16(404), false, "", "", "text/plain", []byte("Not Found\n"))
 	f.Add(uint16(200), true, "-1:neg", "!!", "", []byte{0x08, 0x01})
+	f.Add(uint16(219), true, "+0", "", "0", []byte("0")) // a signed code: "+0" is the code 0
 	f.Add(uint16(299), true, "2147483647:max", "", "", []byte{0x0a, 0x03, 1, 2})
 	f.Add(uint16(200), true, ":", "", "", []byte{0xff})
 	f.Add(uint16(245), true, "00000000000", "", "0", []byte("0")) // found by a campaign: a zero of eleven digits is still code 0
